@@ -156,7 +156,8 @@ func C08() int {
 	}
 	rep.Rule = "codec: every sequence of ≤ n (delta, value) pairs over a boundary alphabet (−0, ±ulp neighbours, subnormal, extremes, +Inf, XOR leading-zero " +
 		"counts 11/12/31/32/52/63, trailing-zero extremes; deltas 0,1,60,63,64,65,255,256,2047,2048,2049,86400,2^31−1 so that delta-of-delta crosses every " +
-		"field boundary) through the real Compressor/DecompressIterator, decoded (timestamp, bits) must be identical. end-to-end: series sets × " +
+		"field boundary) through the real Compressor/DecompressIterator, decoded (timestamp, bits) must be identical. block reader: every sequence of ≤3 (4) distinct look-ups of present and absent series " +
+		"through the real per-block series reader (cursor kept between look-ups) on real blocks of 1, 2, 4 series: found iff stored, points as stored. end-to-end: series sets × " +
 		"ingest/rotate histories through the real ingest and query path (see coverage.e2e). non-trivial = codec sequence of length ≥2 with a non-zero XOR or non-zero delta-of-delta; e2e case with ≥2 series"
 	rep.Assume = []string{"NaN is rejected by ingest and excluded", "deltas are non-negative (the ingest path orders by arrival); first timestamp = block header"}
 	budget := kernel.NewBudget(map[string]time.Duration{"quick": 100 * time.Second, "thorough": 25 * time.Minute}[tier])
@@ -283,6 +284,7 @@ func C08() int {
 		rep.Cap("time budget hit during codec enumeration")
 	}
 	if os.Getenv("VERIF_C08_CODEC_ONLY") != "1" {
+		c08Reader(rep, kernel.NewBudget(map[string]time.Duration{"quick": 40 * time.Second, "thorough": 10 * time.Minute}[tier]))
 		c08E2E(rep)
 	}
 	return rep.Finish()
@@ -299,6 +301,13 @@ func init() {
 		if err := json.Unmarshal(doc, &d); err != nil {
 			fmt.Println("HARNESS-ERROR", err)
 			return 2
+		}
+		var probe struct {
+			Order []string `json:"order"`
+		}
+		_ = json.Unmarshal(doc, &probe)
+		if len(probe.Order) > 0 {
+			return MakeReplayer[c08ReaderJob]("C08", "exploration", logPool, c08ReaderRun)(doc)
 		}
 		if d.Kind == "codec" {
 			var dl []uint32
